@@ -189,6 +189,11 @@ def check_truncation(ctx, rng, name, l, chosen, reqs, meta, depth=0):
             pass
     ctx.case((name, "truncate", depth, None if chosen is None else tuple(int(x) for x in np.atleast_1d(chosen))), nontrivial=len(trunc) > 0,
              sample=dict(case=name, truncated=len(trunc), V=t.n_vertices, E=t.n_edges))
+    if min_gap(l) < GAP_MIN:
+        # two edges leave a vertex in the same direction (e.g. coinciding dual edges of two plaquettes that share two edges): the cyclic order at that vertex,
+        # hence the numbering of the corners, is decided by a tie-break - non-generic input, the index-level comparison with the model is skipped
+        ctx.count("truncation_model_comparison_excluded_nongeneric_rotation")
+        return t
     reqs.append(dict(op="truncate", chosen=sorted(sel), **zoo.lat_to_json(l))); meta.append((name, "truncate", l, t, None))
     return t
 
@@ -206,6 +211,9 @@ def run(ctx):
         for r in range(1 if quick else 2):
             l = zoo.voronoi(rng, N)
             lat.append((f"vor{N}#{r}", l)); lat.append((f"vor{N}#{r}-xy", cut_boundaries(l))); lat.append((f"vor{N}#{r}-x", cut_boundaries(l, [True, False])))
+    for r in range(2 if quick else 8):
+        l = zoo.voronoi_antidiag(rng)
+        lat.append((f"vor-antidiag#{r}", l)); lat.append((f"vor-antidiag#{r}-x", cut_boundaries(l, [True, False]))); lat.append((f"vor-antidiag#{r}-y", cut_boundaries(l, [False, True])))
     small = [("vor4", zoo.voronoi(rng, 4)), ("vor6", zoo.voronoi(rng, 6)), ("honey2", eg.honeycomb_lattice(2)), ("two_triangles", eg.two_triangles()),
              ("wheel6", eg.higher_coordination_number_example(6)), ("tutte", eg.tutte_graph())]
     for name, l in lat:
